@@ -43,6 +43,8 @@ def history(rng):
             if op["op"] == "interp":
                 op["method"] = rng.choice(["linear", "constant"])
         ops.append(op)
+    if rng.random() < 0.3:
+        ops = W.sprinkle(rng, ops, 0.3, 0.0)       # earlier refused requests, caught by the application
     return ops
 
 
@@ -116,6 +118,11 @@ def gen(rng):
     elif cls == "grid_ends":
         c["ops"].append({"op": "interp", "method": rng.choice(["linear", "constant"]), "grid": ["1/2", "1/4"], "bad_ends": True,
                          "force": True})
+        if rng.random() < 0.5:
+            # keyword arguments that Weaver.interpolate passes through to the interpolation routine
+            c["ops"][-1]["kwargs"] = rng.choice([{"period": 24.0}, {"period": 1.0}, {"left": 0.0}, {"right": 0.0},
+                                                 {"left": 0.0, "right": 1.0}])
+            c["ops"][-1]["method"] = "linear"
     elif cls == "grid_ref_ends":
         # working and reference series span different ranges; the grid has the REFERENCE's end points
         c["x"] = ["5", "6", "7", "8", "9", "10", "11", "12"]
@@ -197,6 +204,9 @@ def compare(c, io, mo):
 def oracle(c, io):
     steps = io["steps"]
     cls = c["cls"]
+    bad = W.accepted_invalid(io)
+    if bad:
+        return bad
     if cls in ("len_mismatch", "bad_shape", "dataset"):
         return None if steps[0].get("err") == "ValueError" else f"{cls}: not rejected with ValueError: {steps[0]}"
     nops = len(c["ops"])
